@@ -76,13 +76,15 @@ ADDENDA = {
  "C09": "; provenance of the per-bulk write status (created per call or reset before use)",
  "C10": "; no reader activity between reading the document line and returning its view",
  "C11": "; append-to-view rule extended to the indexer (append-style APIs recognised)",
- "C12": "; conditional constant propagation with input partitioning (FINITE) recovering the negation push-down table of propagateNot and comparing every cell with the truth table of the input; constant-index reads of the input text dominated by a length test",
+ "C12": "; conditional constant propagation with input partitioning (FINITE) recovering the negation push-down table of propagateNot and comparing every cell with the truth table of the input; constant-index reads of the input text dominated by a length test; cursor typestate of the legacy parser (read/advance only after eof() answered false since the position changed, callee requirements to a fixed point)",
  "C13": "; type-switch dominance rule for the dictionary pre-selection hint (literals only)",
  "C14": "; evidence rule for the constant-true answers of the sealed LID-border predicate",
  "C15": "; the loader's decision walk inlines its private helpers; a SKIP outcome never finishes a deletion; a sealed fraction with both .docs and .sdocs left is checked against the file Sealed.openDocs prefers",
  "C16": "; every return of the per-store stream iterator is dominated by that call's Recv",
  "C17": "; alias/mutation-sink analysis of SetMultiple's parameters",
  "C18": "; read-modify-write-in-one-hold rule for the cleaner's bucket list",
+ "C19": "; unconditional copy of every aggregation bin into the persisted form; classification rule for per-replica errors in the proxy's fetch of an asynchronous result",
+ "C20": "; who-may-compare rule for the lexer's token text (keywords only through the lexer's own tests)",
 }
 
 NOT_YET = "check not built yet in this round (planned in DESIGN.md §3); nothing is claimed for it"
